@@ -179,6 +179,7 @@ def install(I):
     E["os.fspath"] = E["os.fsdecode"]
     E["os.PathLike"] = I.ext_models.get("pathlib.Path", obj)
     E["functools.cache"] = Builtin("cache", lambda i, a, k: __import__("pyvc.builtins_", fromlist=["CachedFunc"]).CachedFunc(a[0]))
+    E["functools.partial"] = Builtin("partial", lambda i, a, k: Builtin("partial.call", (lambda f_, a0, k0: lambda i2, a2, k2: i2.call(f_, list(a0) + list(a2), {**k0, **k2}))(a[0], list(a[1:]), dict(k))))
     E["functools.wraps"] = Builtin("wraps", lambda i, a, k: Builtin("wraps.deco", lambda i2, a2, k2: a2[0]))
     E["abc.abstractmethod"] = Builtin("abstractmethod", lambda i, a, k: a[0])
     E["abc.ABCMeta"] = ns["type"]
